@@ -9,8 +9,17 @@ WT=/tmp/vs/$NAME
 rm -rf $WT; mkdir -p /tmp/vs
 git -C /repo worktree add -q --detach $WT HEAD || exit 9
 cd $WT
-LOC=$(head -1 $SRC/demo_location.txt | tr -d '\r' | sed 's#/*$##')
-[ -d "$LOC" ] || LOC=$(grep -o '[a-z/]*' $SRC/demo_location.txt | while read d; do [ -d "$d" ] && echo $d && break; done)
+LOC=$(python3 - "$SRC/demo_location.txt" <<'PY'
+import sys,re,os
+t=open(sys.argv[1]).read()
+for tok in re.findall(r"[A-Za-z0-9_./-]+", t):
+    tok=tok.strip().rstrip("/").lstrip("./") or "."
+    if tok=="." or os.path.isdir(tok):
+        print(tok); break
+else:
+    print(".")
+PY
+)
 echo "demo dir: $LOC"
 git apply $SRC/patch.diff || { echo "RESULT $NAME patch-does-not-apply"; cd /; git -C /repo worktree remove --force $WT; exit 1; }
 go build ./... || { echo "RESULT $NAME build-fails"; }
